@@ -4,7 +4,8 @@ Driver for C09.  One line = one composition tree (prefix notation) + one history
   run <node> | <op> <op> ...
   <node> ::= R tag a b c d                       recording leaf forecaster
            | E agg n (name <node>){n}             EnsembleForecaster (agg = online: OnlineEnsembleForecaster)
-           | P n (T tag k m upd skip){n} <node>   TransformedTargetForecaster
+           | P n (T tag k m upd skip){n} <node>   TransformedTargetForecaster, `update` as coded in /repo
+           | Pf n (T ...){n} <node>               the same with the repaired `update` (findings/C09-*.patch)
            | M sel n (name <node>){n}             MultiplexForecaster (sel = name | none)
            | S n (name <node>){n} G tag p q       StackingForecaster
   <op>   ::= fit <series> <fh> | upd <series> <T|F> | pred <fh>
@@ -22,7 +23,7 @@ open SkVerif SkVerif.Compose SkVerif.Drv
 inductive Node
   | leaf (p : LeafP)
   | ens (agg : Option Agg) (ms : List (String × Node))
-  | pipe (ts : List TrP) (f : Node)
+  | pipe (fixed : Bool) (ts : List TrP) (f : Node)
   | mux (sel : Option String) (ms : List (String × Node))
   | stack (ms : List (String × Node)) (g : RegP)
 
@@ -31,7 +32,7 @@ instance : Inhabited Forecaster := ⟨recF ⟨"", 0, 0, 0, 0⟩⟩
 partial def build : Node → Forecaster
   | .leaf p => recF p
   | .ens agg ms => ensemble agg (ms.map (·.1)) (ms.map (fun m => build m.2))
-  | .pipe ts f => pipeline (ts.map recT) (build f)
+  | .pipe fixed ts f => pipelineG fixed (ts.map recT) (build f)
   | .mux sel ms => mux sel (ms.map (·.1)) (ms.map (fun m => build m.2))
   | .stack ms g => stacking (ms.map (·.1)) (ms.map (fun m => build m.2)) (recG g)
 
@@ -62,7 +63,12 @@ partial def parseNode? : List String → Option (Node × List String)
       let n ← parseNat? n
       let (ts, rest') ← parseTrs? n rest
       let (f, rest'') ← parseNode? rest'
-      pure (.pipe ts f, rest'')
+      pure (.pipe false ts f, rest'')
+  | "Pf" :: n :: rest => do
+      let n ← parseNat? n
+      let (ts, rest') ← parseTrs? n rest
+      let (f, rest'') ← parseNode? rest'
+      pure (.pipe true ts f, rest'')
   | "M" :: sel :: n :: rest => do
       let n ← parseNat? n
       let (ms, rest') ← parseMembers? n rest
